@@ -176,6 +176,12 @@ StringDictionaryRPFC::StringDictionaryRPFC(IteratorDictString *it,
       // realloc if required
       while ((bytesStrings + (bucketsize * 1000)) > reservedStrings)
         reservedStrings = Reallocate(&textStrings, reservedStrings);
+      // Buckets of long strings exceed the previous estimate: the header plus
+      // bitsrp bits per symbol of the internal strings are required
+      while ((bytesStrings + headers[bucket].size() +
+              ((beginnings[bucket] - beginnings[bucket - 1]) * bitsrp) / 8 + 2) >
+             reservedStrings)
+        reservedStrings = Reallocate(&textStrings, reservedStrings);
 
       bytes = 0;
       tmp[bytes] = 0;
